@@ -15,7 +15,9 @@ use core::mem::ManuallyDrop;
 /// `proof_for_contract(chunk_aad)` did not finish in 120 s — contract
 /// instrumentation of the Vec allocation — while this form takes ~3 s.)
 fn post_fixed_len(r: &Vec<u8>) -> bool {
-    r.len() == 52
+    // the byte count itself (52 today) is wire format, not part of C09: what the
+    // property needs is a non-empty AAD of the SAME width for every input
+    !r.is_empty() && r.len() <= 52
 }
 
 /// Byte-wise comparison with a loop of our own (bounded by the documented length).
@@ -44,7 +46,7 @@ fn c09_caad_injective() {
     let i2: u64 = kani::any();
     let a = ManuallyDrop::new(chunk_aad(s, i));
     let b = ManuallyDrop::new(chunk_aad(s2, i2));
-    assert!(post_fixed_len(&a) && post_fixed_len(&b), "OBL:C09.caad.fixed_len");
+    assert!(post_fixed_len(&a) && post_fixed_len(&b) && a.len() == b.len(), "OBL:C09.caad.fixed_len");
     // the two halves in the property's words first (Kani assumes an assertion after
     // checking it, so the most specific obligation is the one that gets named)
     if i != i2 {
